@@ -70,6 +70,7 @@ type Config struct {
 	SwitchBudget int
 	Verbose      bool
 	spec         *HarnessSpec
+	CollectSigs  bool
 }
 
 type Violation struct {
@@ -101,6 +102,7 @@ type HarnessResult struct {
 	UsedOpaque  bool
 	TimedOut    bool
 	MaxDepth    int
+	Sigs        map[string]int
 }
 
 type job struct {
@@ -432,7 +434,7 @@ func (w *Worker) runPath() {
 			w.funcs[name] = in.prog.Fset.Position(f.Pos()).Filename
 		}
 	}
-	if pl := os.Getenv("VERIF_PATHLOG"); pl != "" {
+	if pl := os.Getenv("VERIF_PATHLOG"); pl != "" || w.cfg.CollectSigs {
 		var sb []byte
 		for _, ev := range w.events {
 			switch ev.kind {
@@ -451,9 +453,17 @@ func (w *Worker) runPath() {
 			}
 		}
 		w.sh.mu.Lock()
-		f, _ := os.OpenFile(pl, os.O_APPEND|os.O_CREATE|os.O_WRONLY, 0o644)
-		fmt.Fprintf(f, "%s %s\n", status, sb)
-		f.Close()
+		if pl != "" {
+			f, _ := os.OpenFile(pl, os.O_APPEND|os.O_CREATE|os.O_WRONLY, 0o644)
+			fmt.Fprintf(f, "%s %s\n", status, sb)
+			f.Close()
+		}
+		if w.cfg.CollectSigs {
+			if w.sh.res.Sigs == nil {
+				w.sh.res.Sigs = map[string]int{}
+			}
+			w.sh.res.Sigs[status.String()+" "+string(sb)]++
+		}
 		w.sh.mu.Unlock()
 	}
 	switch status {
